@@ -6,12 +6,18 @@ unique string value that names the defining file."""
 import os
 
 NAMES = ['aa', 'bb', 'cc']
+# sub-module / sub-package names that are also standard-library modules which CPython ships frozen
+# (never used at the top level of a root, where the frozen module really wins)
+STDLIB_NAMES = ['io', 'abc', 'stat', 'site', 'codecs']
 
 
 def build_root(rnd, root, label, depth=0, max_depth=3, prefix=''):
     """Populate directory `root`. Returns {relpath: text} written."""
     files = {}
-    for nm in NAMES:
+    names = list(NAMES)
+    if depth >= 1 and rnd.random() < 0.4:
+        names.append(rnd.choice(STDLIB_NAMES))
+    for nm in names:
         c = rnd.random()
         rel_mod = prefix + nm + '.py'
         if c < 0.32:
